@@ -13,6 +13,7 @@ Inductive out :=
 | ONone                                   (* Rust: None *)
 | OWin (l : list ev)                      (* Some(window) / flush result *)
 | OParts (l : list (Z * list ev))         (* per-partition results *)
+| OFlat (l : list (Z * list ev))          (* per-partition flush results, handed out as one flat list *)
 | OPeek (l : list ev)                     (* non-destructive read of the buffer *)
 | ONum (n : nat)
 | OBad.                                   (* op not offered by this window type *)
@@ -73,11 +74,11 @@ Definition step (s : wstate) (o : op) : wstate * out :=
   | WSc w, Cur => (s, ONum (length (sc_buf w)))
   | WPT d m, Add e => let '(m', r) := pt_add d m e in (WPT d m', of_opt r)
   | WPT d m, Wm t => let '(m', r) := pt_wm t m in (WPT d m', OParts r)
-  | WPT d m, Flush => let '(m', r) := pt_flush m in (WPT d m', OWin (flat r))
+  | WPT d m, Flush => let '(m', r) := pt_flush m in (WPT d m', OFlat r)
   | WPS g m, Add e => let '(m', r) := ps_add g m e in (WPS g m', of_opt r)
   | WPS g m, Wm t => let '(m', r) := ps_wm t m in (WPS g m', OParts r)
   | WPS g m, Expire t => let '(m', r) := ps_expire t m in (WPS g m', OParts r)
-  | WPS g m, Flush => let '(m', r) := ps_flush m in (WPS g m', OWin (flat r))
+  | WPS g m, Flush => let '(m', r) := ps_flush m in (WPS g m', OFlat r)
   | WPSl a b m, Add e => let '(m', r) := psl_add a b m e in (WPSl a b m', of_opt r)
   | WPSl a b m, Wm t => let '(m', r) := psl_wm t m in (WPSl a b m', OParts r)
   | WPSl a b m, Cur => (s, OPeek (flat (map (fun kw => (fst kw, sl_buf (snd kw))) m)))
@@ -110,6 +111,7 @@ Definition str_out (o : out) : string :=
   match o with
   | ONone => "-"
   | OWin l | OPeek l => str_ids l
+  | OFlat ps => str_ids (flat ps)
   | OParts ps => "{" ++ join "/" (map (fun p => str_key (fst p) ++ ":" ++ str_ids (snd p)) (ksort ps)) ++ "}"
   | ONum n => str_of_nat n
   | OBad => "BAD"
